@@ -33,6 +33,22 @@ CLAIMS = {
               "property); BTreeMap order = ascending ids; hash values represented by residues mod 60 in the "
               "correspondence only"),
         technique="Lean 4 theorem + exhaustive differential correspondence"),
+    "C18": dict(
+        category="proof",
+        text=("Theorems (lean/RNacos/Props/C18.lean) on a model of privilege.rs + build_namespace_privilege: the decision is "
+              "exactly 'whitelisted (or all) and not blacklisted (or all)' for every stored group and namespace "
+              "(check_iff_permitted), the blacklist wins (blacklist_wins), an empty whitelist permits nothing, a disabled "
+              "group restricts nothing, every spelling of the default namespace is decided by the same list entry and needs "
+              "that entry like any other namespace (default_spellings_agree, default_needs_listing). Whether every handler "
+              "takes that decision is settled per endpoint by the sweep of the real console as restricted users: 37 data "
+              "endpoints of both API versions x 50 privilege groups x 6 namespace spellings, writes verified through the "
+              "actors; the oracle applies the model's decision to each answer (nothing of an excluded namespace shown, no "
+              "write there effective, nothing permitted refused). Known finding F18: ten v1 routes reuse the OpenAPI "
+              "handlers without any check."),
+        note=("trusted: Lean kernel; hand model RNacos/Model/Privilege.lean; the sweep harness's classification of answers; "
+              "MCP endpoints are not swept; role checks are C17's; the theorems are about the decision function, the "
+              "'for every endpoint' part is exhaustive testing of the endpoints that exist today, not a proof"),
+        technique="Lean 4 theorem (decision logic) + exhaustive endpoint sweep against the real console with the model as oracle"),
     "C19": dict(
         category="proof",
         text=("Theorems (lean/RNacos/Props/C19.lean), all for unbounded op sequences: replicated counters hand out "
